@@ -639,10 +639,11 @@ def rule_stepinit(ctx: Ctx) -> List[Ob]:
         e = gx.expand_at(v, v) if not isinstance(v, ast.Name) else v
         t = src(e).replace(" ", "")
         seen.append(short(e, 60))
-        if t == "max_steplength":
+        capn = g.params[4] if len(g.params) > 4 else "max_steplength"      # the user's cap, by position
+        if t == capn:
             continue
         good = isinstance(e, ast.Call) and dotted(e.func) in ("min", "np.minimum") and len(e.args) == 2 and \
-            any(src(a) == "max_steplength" for a in e.args) and \
+            any(src(a) == capn for a in e.args) and \
             any(isinstance(a, ast.Call) and dotted(a.func) in ("np.nanmin", "np.min", "min") and "np.where(" in src(gx.expand_at(v, a)) and
                 "np.isfinite" in src(gx.expand_at(v, a)) for a in e.args)
         ok2 = ok2 and good
